@@ -15,6 +15,8 @@ META = {
 META["technique"] += "; " + 'class-level / memoised write ban and effect analysis on the engine constructors'
 META["level"] += " Added after the second round of independent changes: " + '(R4) no function of engine.py / triggers.py / fs/ops.py writes in place to a class-level table; MergeEngine.install/uninstall/replace work on copies.'
 META["technique"] += "; " + 'generic pack G on the anchored files (optional-flag shift, closures outliving a loop iteration, single-pass iterables consumed twice, %-templates built from data, in-place writes to class-level / memoised objects, generators mutating what they yielded, memo keys that are projections)'
+META["technique"] += "; class-attribute resolution through the bases for the triggers' exception-suppression flag"
+META["level"] += " (R5) the triggers that call merge_contents / unmerge_contents and the base-system protection resolve suppress_exceptions to False, the flag execute_hook consults before swallowing an exception."
 OPS = "pkgcore.fs.ops"
 ENG = "pkgcore.merge.engine"
 TRG = "pkgcore.merge.triggers"
@@ -150,6 +152,21 @@ def run(ctx):
     G.pure(ctx, "R4", [("pkgcore.merge.engine", q, (), "the class-level cset/hook tables are templates every engine copies") for q in ("MergeEngine.install", "MergeEngine.uninstall", "MergeEngine.replace")])
     ctx.floor("R4", 4)
 
+    # ---- R5 a failure of the removal (or of the protection) stops the operation ---------------------------------------
+    # execute_hook swallows an unexpected exception of a trigger whose suppress_exceptions flag is true (a warning is
+    # all that is left); the triggers that do the removal and that protect the base directories must resolve it to False.
+    gate = [i for i in ast.walk(eh.node) if isinstance(i, ast.If) and any(isinstance(n, ast.Attribute) and n.attr == "suppress_exceptions" for n in ast.walk(i.test))]
+    if ctx.check("R5", eh, bool(gate), "suppress-gate", "execute_hook re-raises a trigger's unexpected exception unless the trigger's suppress_exceptions flag is set"):
+        removers = [K for K in P.module(TRG).classes.values() if "trigger" in K.methods
+                    and any(dotted(c.func) in ("unmerge_contents", "merge_contents") for c in A.calls(K.methods["trigger"].node))]
+        ctx.require(unm in removers, "the unmerge trigger no longer calls unmerge_contents")
+        for K in removers + [prot]:
+            v = attr(K, "suppress_exceptions")
+            ctx.check("R5", K, v is False, f"failure-propagates:{K.name}", f"{K.name}.suppress_exceptions resolves to False through its bases",
+                      f"{K.name}.suppress_exceptions resolves to {v!r}: an exception raised while {'protecting the base directories' if K is prot else 'changing the filesystem'} is "
+                      f"reduced to a warning by execute_hook and the operation goes on to record the package as {'removed' if K is not prot else 'it stands'}")
+    ctx.floor("R5", 4)
+
 MUTANTS = [
     {"name": "unmerge-filtered-kinds", "file": "src/pkgcore/fs/ops.py", "old": "    for x in iterate(cset.iterdirs(invert=True)):\n        callback(x)\n        unlink_if_exists(x.location)", "new": "    for x in iterate(e for e in cset if e.is_reg or e.is_sym):\n        callback(x)\n        unlink_if_exists(x.location)", "rule": "R1"},
     {"name": "rmtree-dirs", "file": "src/pkgcore/fs/ops.py", "old": "            os.rmdir(x.location)\n        except OSError as e:\n            if e.errno not in (", "new": "            os.removedirs(x.location)\n        except OSError as e:\n            if e.errno not in (", "rule": "R1"},
@@ -160,4 +177,9 @@ MUTANTS = [
     {"name": "base-dir-dropped", "file": "src/pkgcore/merge/triggers.py", "old": "        \"/etc\",\n        \"/var\",", "new": "        \"/etc\",", "rule": "R3"},
     {"name": "dirs-forward-order", "file": "src/pkgcore/fs/ops.py", "old": "    l.sort(reverse=True)", "new": "    l.sort()", "rule": "R1"},
 ]
-TWINS = []
+MUTANTS += [
+    {"name": "unmerge-trigger-inherits-suppression", "file": "src/pkgcore/merge/triggers.py", "old": "    _hooks = (\"unmerge\",)\n\n    suppress_exceptions = False\n\n    def trigger(self, engine, unmerging_cset):", "new": "    _hooks = (\"unmerge\",)\n\n    def trigger(self, engine, unmerging_cset):", "rule": "R5"},
+]
+TWINS = [
+    {"name": "flag-moved-to-a-shared-mixin", "file": "src/pkgcore/merge/triggers.py", "old": "class unmerge(base):\n    required_csets = (\"uninstall\",)\n    _engine_types = UNINSTALLING_MODES\n    _hooks = (\"unmerge\",)\n\n    suppress_exceptions = False\n", "new": "class _loud(base):\n    suppress_exceptions = False\n\n\nclass unmerge(_loud):\n    required_csets = (\"uninstall\",)\n    _engine_types = UNINSTALLING_MODES\n    _hooks = (\"unmerge\",)\n"},
+]
